@@ -59,7 +59,14 @@ func takeVSnap(c *kernel.Chain, withStore bool) *vSnap {
 	for _, avp := range c.App.CfevestingKeeper.GetAllAccountVestingPools(ctx) {
 		m := map[string]poolRec{}
 		for _, p := range avp.VestingPools {
-			m[p.Name] = poolRec{Init: p.InitiallyLocked, Sent: p.Sent, Wd: p.Withdrawn, LockEnd: p.LockEnd, Genesis: p.GenesisPool, VType: p.VestingType}
+			key := p.Name
+			for k := 2; ; k++ { // the same name twice under one owner (the v1.2.0 split can produce that): keep both, in order
+				if _, dup := m[key]; !dup {
+					break
+				}
+				key = fmt.Sprintf("%s\x00#%d", p.Name, k)
+			}
+			m[key] = poolRec{Init: p.InitiallyLocked, Sent: p.Sent, Wd: p.Withdrawn, LockEnd: p.LockEnd, Genesis: p.GenesisPool, VType: p.VestingType}
 		}
 		s.pools[avp.Owner] = m
 	}
